@@ -229,6 +229,10 @@ pub enum BodyExpr {
     Map(Box<BodyExpr>, F2),
     /// the same node through another constructor: 0 `map_cyclic`, 1 `enumerate`, 2 `pipe` + `map`
     MapVia(Box<BodyExpr>, F2, u8),
+    /// `e.map(|x| (x mod 3, x div 2)).map_ref(|p| &p.<proj>)`: a projection built inside the closure
+    Ref(Box<BodyExpr>, u8),
+    /// `e.map_with_old(..)` built inside the closure
+    WithOld(Box<BodyExpr>, F1),
     Map2(Box<BodyExpr>, Box<BodyExpr>, F2),
     /// a var created inside the body (`top` = created with `state.var`, else current scope)
     NewVar { v: i64, top: bool },
